@@ -2,19 +2,12 @@
    assembled from the per-operation theorems, plus corollaries. *)
 From Coq Require Import List ZArith Bool Arith Lia Permutation.
 From NT Require Import Sx Rose ListFacts RoseFacts Surgery SurgeryFacts Machine WF MachineFacts
-  PreserveSteps PreserveOps PreserveSort PreserveCopy PreserveMore PreserveRelabel.
+  PreserveSteps PreserveOps PreserveSort PreserveCopy PreserveMore PreserveRelabel PreserveKeepClones.
 Import ListNotations.
 
-(* operations whose preservation proof is closed *)
-Definition covered (o : op) : bool :=
-  match o with
-  | ORemove _ _ keep wc => negb (keep && wc)
-  | _ => true
-  end.
-
-Theorem WFw_step_partial w o : covered o = true -> WFw w -> WFw (snd (step w o)).
+Theorem WFw_step w o : WFw w -> WFw (snd (step w o)).
 Proof.
-  intros C H. destruct o; cbn [step]; try discriminate C.
+  intros H. destruct o; cbn [step].
   - now apply WFw_op_add.
   - now apply WFw_op_shortcut.
   - now apply WFw_op_add_node.
@@ -23,7 +16,7 @@ Proof.
   - now apply WFw_op_tree_copy.
   - now apply WFw_op_node_copy.
   - now apply WFw_op_move.
-  - apply WFw_op_remove; [assumption|]. cbn [covered] in C. now apply negb_true_iff in C.
+  - now apply WFw_op_remove_full.
   - now apply WFw_op_remove_children.
   - now apply WFw_op_sort.
   - now apply WFw_op_set_data.
@@ -37,11 +30,15 @@ Proof.
   - now apply WFw_op_tree_from_dict.
 Qed.
 
-Theorem WFw_run_partial ops : forall w, forallb covered ops = true -> WFw w -> WFw (run ops w).
+Theorem WFw_run ops : forall w, WFw w -> WFw (run ops w).
 Proof.
-  induction ops as [|o ops IH]; intros w C H; [exact H|]. cbn [forallb] in C. apply andb_true_iff in C. destruct C as [C1 C2].
-  unfold run. cbn [fold_left]. apply IH; [assumption|]. now apply WFw_step_partial.
+  induction ops as [|o ops IH]; intros w H; [exact H|].
+  unfold run. cbn [fold_left]. apply IH. now apply WFw_step.
 Qed.
+
+(* every state along a history *)
+Theorem WFw_trace ops : forall w, WFw w -> forall k, WFw (run (firstn k ops) w).
+Proof. intros w H k. now apply WFw_run. Qed.
 
 (* ---- corollaries spelled out from WF ---- *)
 Lemma WF_count t : WF t -> length (reg t) = length (ids (forest_of t)) /\ length (ids (forest_of t)) = size_f (forest_of t).
